@@ -4,10 +4,7 @@
 
 // The binary crate `lsp4spl` has no library target: its sources are compiled here as modules
 // (symlinks into /repo/lsp4spl/src), so `crate::document::…` paths resolve unchanged.
-mod document;
-mod error;
-mod features;
-mod io;
+include!("repo_mods.rs");
 
 mod driver;
 mod lexglue;
